@@ -118,6 +118,7 @@ def clause_env_module(interp):
         'spec': interp.load_module('spec'),
         'np': interp.load_module('numpy'),
         'const': interp.load_module('pmutt.constants'),
+        'pm': interp.load_module('pmutt'),
         'log': Builtin('log', _elementwise(_log), pass_interp=True),
         'exp': Builtin('exp', _elementwise(_exp), pass_interp=True),
         'sqrt': Builtin('sqrt', _elementwise(_sqrt), pass_interp=True),
@@ -281,6 +282,7 @@ class Engine:
         pr.ctx = ctx
         pr.leaves = B.leaves
         pr.seq_leaves = B.seq_leaves
+        pr.stubs = B.stubs
         pr.args = args
         pr.env = env
         pr.cmod = cmod
@@ -474,7 +476,7 @@ class Engine:
                         ob.detail = 'solver returned unknown (path %d)' % pi
                     continue
                 ob.status = 'violation'
-                ob.model = model_assignment(m, pr.leaves, getattr(pr, 'seq_leaves', None))
+                ob.model = model_assignment(m, pr.leaves, getattr(pr, 'seq_leaves', None), getattr(pr, 'stubs', None))
                 ob.exact = not pr.ctx.atoms.info
                 ob.fail_path = pr
                 ob.detail = 'refuted on path %d (%s)' % (pi, pr.outcome)
@@ -504,7 +506,7 @@ class Engine:
                 side.seconds += time.time() - t0
                 if r == 'sat':
                     side.status = 'violation'
-                    side.model = model_assignment(m, pr.leaves, getattr(pr, 'seq_leaves', None))
+                    side.model = model_assignment(m, pr.leaves, getattr(pr, 'seq_leaves', None), getattr(pr, 'stubs', None))
                     side.detail = '%s: %s can be violated' % (lb, cond)
                     side.exact = not pr.ctx.atoms.info
                     side.fail_path = pr
@@ -725,6 +727,35 @@ def _stable_hash(s):
     return zlib.crc32(s.encode()) % 100003
 
 
+def _model_value(m, v):
+    """python value of a symbolic value under a model"""
+    if isinstance(v, Sym):
+        r = m.eval(v.t, model_completion=True)
+        if z3.is_int_value(r):
+            return r.as_long()
+        if z3.is_rational_value(r):
+            return r.numerator_as_long() / r.denominator_as_long()
+        if z3.is_algebraic_value(r):
+            a = r.approx(20)
+            return a.numerator_as_long() / a.denominator_as_long()
+        if z3.is_true(r):
+            return True
+        if z3.is_false(r):
+            return False
+        if z3.is_string_value(r):
+            return r.as_string()
+        return 0.0
+    if isinstance(v, Fraction):
+        return float(v)
+    if isinstance(v, dict):
+        return {k: _model_value(m, x) for k, x in v.items()}
+    if isinstance(v, (list, tuple)):
+        return [_model_value(m, x) for x in v]
+    if isinstance(v, (bool, int, float, str)) or v is None:
+        return v
+    return repr(v)
+
+
 def _only_consts(t, names):
     seen = set()
     stack = [t]
@@ -786,8 +817,14 @@ def compare_value(sv, nv, envn, atoms):
     return None
 
 
-def model_assignment(m, leaves, seq_leaves=None):
+def model_assignment(m, leaves, seq_leaves=None, stubs=None):
     asg = {}
+    for name, st in (stubs or {}).items():
+        table = []
+        for key, (method, kw, c) in st.memo.items():
+            kwv = {k: _model_value(m, v) for k, v in kw.items()}
+            table.append([method, kwv, _model_value(m, Sym(c))])
+        asg[name + '.__table__'] = table
     for name, (n, consts, spec) in (seq_leaves or {}).items():
         nv = m.eval(n, model_completion=True)
         L = nv.as_long() if z3.is_int_value(nv) else spec.min_len
